@@ -121,8 +121,9 @@ impl SignatureConverter<'_> {
                             let lifetime = type_reference.lifetime.clone();
 
                             if matches!(self.impl_receiver_kind, ImplReceiverKind::DynamicImpl) {
-                                // `&self` is the delegation target, the dependency is `__impl`:
-                                impl_lifetime = lifetime;
+                                // `&self` is the delegation target, the dependency is `__impl`
+                                // (`&'_ D` is `&D`: nothing the output could be named after):
+                                impl_lifetime = lifetime.filter(|lifetime| lifetime.ident != "_");
                                 *input =
                                     self.gen_first_receiver(pat_type.span(), Some((and_token, None)));
                             } else {
